@@ -1,6 +1,7 @@
 import SF.Props.C11
 #print axioms SF.C11.superSmoother_eq
 #print axioms SF.C11.laguerreFilter_eq
+#print axioms SF.C11.cyberCycle_eq
 #print axioms SF.C11.trendFlex_eq
 #print axioms SF.C11.reFlex_eq
 #print axioms SF.C11.laguerreRsi_eq
